@@ -1,5 +1,5 @@
 SPECIFICATION Spec
 CONSTANTS
-  Part = "rules"
+  Part = "small"
   Variant = "resp_over_req"
 INVARIANTS RequestBeatsResponse
